@@ -50,6 +50,18 @@ pub fn run(prop: &str, thorough: bool) -> Option<Report> {
     Some(rep)
 }
 
+/// The four list combinations (S absent/present x D absent/present), tagged.  "lists" is the
+/// everything-evaluated configuration (dev profile, log level trace); "deny-only" runs at log
+/// level debug on the dev profile, "self-only" on the release build with the console logger off.
+pub fn cfg_variants() -> Vec<(&'static str, Cfg)> {
+    vec![
+        ("plain", cfg_plain()),
+        ("lists", cfg_lists()),
+        ("deny-only", Cfg::base().with_deny(&corpus::deny_ips()).with_log(LoggerKind::None, Level::Debug).with_profile(Profile::Dev)),
+        ("self-only", Cfg::base().with_self(&corpus::self_ips())),
+    ]
+}
+
 /// configuration lattice used by most sweeps: lists absent / present
 pub fn cfg_plain() -> Cfg {
     Cfg::base()
